@@ -39,6 +39,10 @@ func init() {
 		NotDecided: "position arithmetic, deletion, TotalRows handling, equality with the reference value, batching independence — the behavioural core. This is a thin " +
 			"claim: a change that breaks R01a-c is almost certainly caught by the existing tests as well.",
 		Rules: []RuleDef{{ID: "R01", Statement: "sibling agreement of the block-application implementations", Run: runC01},
+			{ID: "R01g", Statement: "the forest grows before the leaf is stored", Run: func(p *Program, r *Report) {
+				r.Rule("R01g", "GROW-BEFORE-STORE: in the map forest's single-leaf insertion the growth step dominates every write to the node store and the leaf index")
+				checkGrowBeforeStore(p, r, "R01g")
+			}},
 			{ID: "R01f", Statement: "the leaf count only grows while a block is applied", Run: func(p *Program, r *Report) {
 				r.Rule("R01f", "LEAF-COUNT-MONOTONE: under Stump.Update, Pollard.Modify and MapPollard.Modify every store into a NumLeaves field is an increment of the value read from that field")
 				checkLeafCountMonotone(p, r, "R01f", []string{"(*Stump).Update", "(*Pollard).Modify", "(*MapPollard).Modify"})
